@@ -22,6 +22,13 @@ def mc(ctx):
     ctx.tlc_mc("MC_Cfg", "MC_Cfg_3.cfg", key="MC_Cfg 3 blocks x 0..1 instructions")
 
 
+def stream(path):
+    with open(path) as f:
+        for l in f:
+            if l.strip():
+                yield json.loads(l)
+
+
 def session_inputs(lines, line_no):
     """Descriptors of the session that contains line `line_no` (1-based), up to that line."""
     i = line_no - 1
@@ -63,7 +70,7 @@ def validate(ctx, paths, nshards):
     lang_events = 0
     for p in paths:
         cur = []
-        for e in ctx.read_ndjson(p):
+        for e in stream(p):
             if e["ev"] == "begin":
                 sessions += 1
                 if cur and len(ctx.samples) < 2 and 6 <= len(cur) <= 14:
@@ -87,13 +94,15 @@ def run(ctx):
     ctx.build(["c15"])
     mc(ctx)
     q = ctx.quick
-    jobs = [
-        ("c15", ["--mode", "targeted"], "targeted.ndjson"),
-        ("c15", ["--mode", "random", "--n", 220 if q else 5000, "--maxops", 60], "random.ndjson"),
-        ("c15", ["--mode", "blockify", "--n", 300 if q else 8000], "blockify.ndjson"),
-    ]
-    paths = ctx.record_many(jobs, parallel=3)
-    validate(ctx, paths, 6 if q else 16)
+    jobs = [("c15", ["--mode", "targeted"], "targeted.ndjson")]
+    if q:
+        jobs += [("c15", ["--mode", "random", "--n", 220, "--maxops", 60], "random.ndjson"),
+                 ("c15", ["--mode", "blockify", "--n", 300], "blockify.ndjson")]
+    else:
+        jobs += [("c15", ["--mode", "random", "--n", 2500, "--maxops", 60, "--salt", k], "random%d.ndjson" % k) for k in range(4)]
+        jobs += [("c15", ["--mode", "blockify", "--n", 12000], "blockify.ndjson")]
+    paths = ctx.record_many(jobs, parallel=4)
+    validate(ctx, paths, 6 if q else 4)
     ctx.extra["language_bound_k"] = K
     ctx.extra["generator_bounds"] = {
         "operations_per_history": "<= 60 (+ a closing merge)", "blocks": "<= ~12", "instructions_per_block": "unbounded by construction, typically <= 6",
